@@ -290,6 +290,10 @@ def main():
           pq_ = getattr(prod[0], "quantizer", None) if prod else None
           if fid is None and type(pq_).__name__ == "quantized_relu_po2" and getattr(pq_, "negative_slope", 0) and float(np.min(xin)) < 0:
             fid = "C18-leaky-relu-po2-reported-unsigned"
+          # ternary / binary product templates count the sign inside int_bits (int_bits == bits): the accumulator built from them has
+          # NEGATIVE fraction bits (C17 known finding C17-accumulator-of-ternary-binary-products seen from the model)
+          if fid is None and int(mul.bits) - int(mul.int_bits) - int(bool(mul.is_signed)) < 0:
+            fid = "C18-ternary-binary-product-template-negative-fraction-bits"
           # po2 kernel on po2 activations: the Adder multiplier rule under-sizes the exponent range in two operand classes (C16 known findings)
           if fid is None and getattr(iq, "is_po2", 0) and getattr(wq_t, "is_po2", 0):
             capw, capx = 0 < float(wq_t.max_val_po2) <= 1, 0 < float(iq.max_val_po2) <= 1
